@@ -92,6 +92,24 @@ Proof.
       * intros Hs. rewrite chain_feed_app, E1 in Hs. discriminate.
 Qed.
 
+(* once the chain has refused a row, the rest of the input is never pulled *)
+Lemma main_loop_app_stop jm : forall A1 ls nr offs1,
+  l_nu ls = 0 ->
+  all_offers expr eval q jm nr A1 = Ok offs1 ->
+  snd (chain_feed w cfg (l_chain ls) offs1) = false ->
+  forall A2, main_loop eval w q jm ls nr (A1 ++ A2) = main_loop eval w q jm ls nr A1.
+Proof.
+  induction A1 as [|a A1 IH]; intros ls nr offs1 Hnu H Hs A2.
+  - cbn in H. injection H as <-. cbn in Hs. discriminate.
+  - cbn [all_offers] in H. apply bind_ok in H. destruct H as [ms [Hm H]].
+    apply bind_ok in H. destruct H as [r [Hr H]]. apply bind_ok in H. destruct H as [rs [Hrs H]]. injection H as <-.
+    cbn [app main_loop]. rewrite (process_record_select jm ls (S nr) a ms r Hnu Hm Hr).
+    rewrite chain_feed_app in Hs.
+    destruct (chain_feed w cfg (l_chain ls) r) as [st1 ok1] eqn:E1. cbn [fst snd] in *. destruct ok1; cbn [flow_of].
+    + apply (IH (fed ls r) (S nr) rs Hnu Hrs). unfold fed. cbn [l_chain]. rewrite E1. exact Hs.
+    + reflexivity.
+Qed.
+
 End Q.
 
 (* the run of a non-aggregate SELECT whose evaluations all succeed *)
@@ -157,6 +175,49 @@ Proof.
     apply bind_ok in H. destruct H as [r [Hr H]]. apply bind_ok in H. destruct H as [rs [Hrs H]]. injection H as <-.
     cbn [number_from flat_map]. rewrite Hm. cbn [rows_or_nil]. rewrite <- (offers_matches_flat q (S nr) a ms r Hr).
     rewrite (IH (S nr) rs Hrs). reflexivity.
+Qed.
+
+(* TOP n without ORDER BY / DISTINCT: the writer refuses the (n+1)-th offered row *)
+Lemma top_refuses cfg n : c_top cfg = Some n -> c_order cfg = None -> c_distinct cfg = DNo ->
+  forall offs st, s_NW st <= n -> n - s_NW st < length offs -> snd (chain_feed yes cfg st offs) = false.
+Proof.
+  intros Ht Ho Hd. induction offs as [|[k r] offs IH]; intros st Hle Hlen; [cbn in Hlen; lia|].
+  cbn [chain_feed]. unfold chain_write. rewrite Ho. unfold uniq_write. rewrite Hd. unfold top_write. rewrite Ht.
+  destruct (Nat.leb n (s_NW st)) eqn:E; [reflexivity|]. apply Nat.leb_gt in E.
+  unfold base_write, yes. cbn [fst snd].
+  apply IH; cbn [s_NW length] in *; lia.
+Qed.
+
+Theorem run_top_early_stop (q : query) hdr A1 B jm offs1 n :
+  is_agg q = false -> is_update q = false -> static_check q = None ->
+  q_top q = Some n -> q_order q = None -> q_distinct q = DNo ->
+  join_map_of expr q B = Some jm ->
+  all_offers expr eval q jm 0 A1 = Ok offs1 ->
+  n < length offs1 ->
+  forall A2,
+    run eval yes q hdr (A1 ++ A2) B = run eval yes q hdr A1 B
+    /\ o_pulls (run eval yes q hdr (A1 ++ A2) B) <= length A1
+    /\ o_error (run eval yes q hdr (A1 ++ A2) B) = None
+    /\ written (o_chain (run eval yes q hdr (A1 ++ A2) B)) = firstn n (map snd offs1).
+Proof.
+  intros Hagg Hupd Hst Ht Ho Hd Hjm Hoff Hlen A2.
+  assert (Hcfg : c_top (cfg_of q) = Some n /\ c_order (cfg_of q) = None /\ c_distinct (cfg_of q) = DNo).
+  { unfold cfg_of. rewrite Ht, Ho, Hd. repeat split. }
+  destruct Hcfg as [C1 [C2 C3]].
+  assert (Hrun : run eval yes q hdr (A1 ++ A2) B = run eval yes q hdr A1 B).
+  { unfold run. rewrite Hst. unfold join_map_of in Hjm.
+    set (ls0 := {| l_chain := set_header chain_init hdr; l_agg := None; l_nu := 0 |}).
+    assert (Hs : snd (chain_feed yes (cfg_of q) (l_chain ls0) offs1) = false).
+    { apply (top_refuses (cfg_of q) n C1 C2 C3); cbn; lia. }
+    destruct (q_join q) as [js|] eqn:Ej.
+    - destruct (build (j_rhs js) B) as [m|bnr] eqn:Eb; [|discriminate]. injection Hjm as <-.
+      rewrite (main_loop_app_stop yes q Hagg Hupd (Some m) A1 ls0 0 offs1 eq_refl Hoff Hs A2). reflexivity.
+    - injection Hjm as <-.
+      rewrite (main_loop_app_stop yes q Hagg Hupd None A1 ls0 0 offs1 eq_refl Hoff Hs A2). reflexivity. }
+  rewrite Hrun. split; [reflexivity|].
+  destruct (run_select yes q hdr A1 B jm offs1 Hagg Hupd Hst Hjm Hoff) as [H1 [H2 [H3 _]]].
+  destruct (run_select_rows q hdr A1 B jm offs1 Hagg Hupd Hst Hjm Hoff) as [_ H5].
+  split; [exact H3|]. split; [exact H1|]. rewrite H5. unfold chain_spec. rewrite C1, C2, C3. reflexivity.
 Qed.
 
 End Proofs.
